@@ -190,3 +190,258 @@ def sym_inv(M):
 
 funcs.SUB.setdefault('linalg', {})['solve'] = sym_solve
 funcs.SUB.setdefault('linalg', {})['inv'] = sym_inv
+
+
+# ---- scipy ------------------------------------------------------------------------------------------
+
+import scipy as _scipy
+import scipy.sparse as _sp
+import scipy.sparse.linalg as _spl
+import scipy.linalg as _sl
+from scipy.sparse.csgraph import connected_components as _real_cc
+
+
+class SymCOO:
+    """scipy.sparse.coo_matrix((data, (i, j)), shape) on symbolic cells.  Contract used: duplicate
+    entries are summed; indices outside the shape are rejected with ValueError (scipy's check)."""
+    format = 'coo'
+
+    def __init__(self, data, rows=None, cols=None, shape=None, dtype=None):
+        self.ndim = 2
+        self._dense = None
+        if rows is None:            # coo_matrix(dense)
+            d = funcs._as_sarr(data.toarray() if isinstance(data, SymCOO) else data)
+            if d.ndim != 2:
+                raise Unsupported('SymCOO from a non 2-D array')
+            self._dense = d.copy()
+            self.shape = tuple(d.shape)
+            self.dtype = d.ldtype
+            return
+        self.data, self.row, self.col = data, rows, cols
+        self.shape = tuple(int(s) for s in shape)
+        self.dtype = _np.dtype(dtype)
+
+    def toarray(self, *a, **k):
+        if self._dense is not None:
+            return self._dense.copy()
+        n, m = self.shape
+        o = _np.empty((n, m), dtype=object)
+        zero = 0 if self.dtype.kind in 'iu' else 0.0
+        for i in range(n):
+            for j in range(m):
+                acc = zero
+                for d, r, c in zip(self.data, self.row, self.col):
+                    hit = core.sand(r == i, c == j)
+                    if hit is False:
+                        continue
+                    acc = acc + core.ite(hit, d, zero)
+                o[i, j] = acc
+        r = o.view(SArr)
+        r.ldtype = self.dtype
+        return r
+
+    todense = toarray
+    A = property(lambda self: self.toarray())
+
+    def __len__(self):
+        raise TypeError('sparse array length is ambiguous; use getnnz() or shape[0]')
+
+    def tocoo(self, copy=False): return self
+
+    def copy(self):
+        if self._dense is not None:
+            return SymCOO(self._dense)
+        return SymCOO(list(self.data), list(self.row), list(self.col), self.shape, self.dtype)
+
+    def sum(self, axis=None):
+        return self.toarray().sum(axis=axis)
+
+    @property
+    def T(self):
+        if self._dense is not None:
+            return SymCOO(self._dense.T)
+        return SymCOO(list(self.data), list(self.col), list(self.row), self.shape[::-1], self.dtype)
+
+    def __add__(self, o):
+        return self.toarray() + (o.toarray() if isinstance(o, SymCOO) else o)
+
+
+def sym_coo_matrix(arg1, shape=None, dtype=None, copy=False):
+    if not core.active() or not has_sym(arg1):
+        a = unwrap(arg1) if core.active() else arg1
+        return _sp.coo_matrix(a, shape=shape, dtype=dtype, copy=copy)
+    if not (isinstance(arg1, tuple) and len(arg1) == 2):
+        raise Unsupported('coo_matrix from a symbolic dense array')
+    data, ij = arg1
+    data = funcs._as_sarr(_unlazy(data))
+    ij = funcs._as_sarr(_unlazy(ij)) if not isinstance(ij, tuple) else ij
+    rows, cols = (ij[0], ij[1])
+    rows, cols = funcs._as_sarr(rows), funcs._as_sarr(cols)
+    if not (data.shape == rows.shape == cols.shape) or data.ndim != 1:
+        raise ValueError('row, column, and data array must all be the same length')
+    if shape is None:
+        raise Unsupported('coo_matrix without shape on symbolic indices')
+    n, m = (int(operator_index(s)) for s in shape)
+    rc, cc, dc = rows.cells(), cols.cells(), data.cells()
+    for r in rc:
+        if core.branch(r >= n):
+            raise ValueError('row index exceeds matrix dimensions')
+        if core.branch(r < 0):
+            raise ValueError('negative row index found')
+    for c in cc:
+        if core.branch(c >= m):
+            raise ValueError('column index exceeds matrix dimensions')
+        if core.branch(c < 0):
+            raise ValueError('negative column index found')
+    return SymCOO(dc, rc, cc, (n, m), dtype if dtype is not None else data.ldtype)
+
+
+def operator_index(x):
+    import operator
+    return operator.index(x)
+
+
+def sym_issparse(x):
+    return isinstance(x, SymCOO) or _sp.issparse(x)
+
+
+def sym_isspmatrix(x):
+    return isinstance(x, SymCOO) or _sp.isspmatrix(x)
+
+
+def sym_spsolve(A, b, *a, **k):
+    if not core.active():
+        return _spl.spsolve(A, b, *a, **k)
+    if isinstance(A, SymCOO):
+        A = A.toarray()
+    if not has_sym(A) and not has_sym(b):
+        import warnings
+        with warnings.catch_warnings():
+            warnings.simplefilter('ignore')
+            return wrap(_spl.spsolve(unwrap(A), unwrap(b), *a, **k))
+    return sym_solve(A, b)
+
+
+def sym_connected_components(csgraph, directed=True, connection='weak', return_labels=True):
+    """contract: labels = partition into strongly (or weakly) connected classes of the graph whose
+    edges are the non-zero entries; classes numbered by their smallest member (scipy's numbering is
+    unspecified; callers must not depend on it)."""
+    if not core.active():
+        return _real_cc(csgraph, directed=directed, connection=connection, return_labels=return_labels)
+    if isinstance(csgraph, SymCOO):
+        csgraph = csgraph.toarray()
+    if not has_sym(csgraph):
+        return wrap(_real_cc(unwrap(csgraph), directed=directed, connection=connection, return_labels=return_labels))
+    G = funcs._as_sarr(csgraph)
+    n = G.shape[0]
+    g = _raw(G)
+    e = [[(g[i, j] != 0) if i != j else True for j in range(n)] for i in range(n)]
+    if not directed or connection == 'weak':
+        e = [[core.sor(e[i][j], e[j][i]) for j in range(n)] for i in range(n)]
+    # Warshall closure
+    reach = [row[:] for row in e]
+    for k in range(n):
+        reach = [[core.sor(reach[i][j], core.sand(reach[i][k], reach[k][j])) for j in range(n)] for i in range(n)]
+    same = [[core.sand(reach[i][j], reach[j][i]) for j in range(n)] for i in range(n)]
+    ctx = core.cur()
+    pairs = [(i, j) for i in range(n) for j in range(i + 1, n)]
+
+    def pick(m):
+        return tuple(bool(z3.is_true(m.eval(core.to_z3_bool(same[i][j]), model_completion=True))) for i, j in pairs)
+
+    def cond(P):
+        return z3.And(*[core.to_z3_bool(same[i][j]) if p else z3.Not(core.to_z3_bool(same[i][j]))
+                        for (i, j), p in zip(pairs, P)]) if pairs else z3.BoolVal(True)
+    while True:
+        P, ok = ctx.choice(pick, cond)
+        if ok:
+            break
+    rel = dict(zip(pairs, P))
+    labels = [-1] * n
+    nxt = 0
+    for i in range(n):
+        if labels[i] >= 0:
+            continue
+        labels[i] = nxt
+        for j in range(i + 1, n):
+            if rel[(i, j)]:
+                labels[j] = nxt
+        nxt += 1
+    ctx.notes.append('stub:connected_components')
+    lab = SArr.from_typed(_np.array(labels, dtype=_np.int32))
+    return (nxt, lab) if return_labels else nxt
+
+
+class _SpLinalgProxy:
+    def __getattr__(self, n):
+        if n == 'spsolve':
+            return sym_spsolve
+        real = getattr(_spl, n)
+        if callable(real) and not isinstance(real, type):
+            def f(*a, **k):
+                if core.active() and (has_sym(list(a)) or has_sym(k)):
+                    raise Unsupported('scipy.sparse.linalg.%s on symbolic values' % n)
+                return wrap(real(*unwrap(list(a)), **unwrap(k))) if core.active() else real(*a, **k)
+            return f
+        return real
+
+
+class _SparseProxy:
+    linalg = _SpLinalgProxy()
+    coo_matrix = staticmethod(sym_coo_matrix)
+    issparse = staticmethod(sym_issparse)
+    isspmatrix = staticmethod(sym_isspmatrix)
+
+    def __getattr__(self, n):
+        real = getattr(_sp, n)
+        if isinstance(real, type):
+            def ctor(*a, **k):
+                if core.active() and (has_sym(list(a)) or has_sym(k)):
+                    raise Unsupported('scipy.sparse.%s on symbolic values (scipy.sparse containers cannot hold '
+                                      'solver terms)' % n)
+                return real(*unwrap(list(a)), **unwrap(k)) if core.active() else real(*a, **k)
+            return ctor
+        return real
+
+
+def sym_eig(T, *a, **k):
+    if not core.active():
+        return _sl.eig(T, *a, **k)
+    if not has_sym(T):
+        return wrap(_sl.eig(unwrap(T), *a, **k))
+    hook = EIG_CONTRACT[0]
+    if hook is None:
+        raise Unsupported('scipy.linalg.eig on symbolic values without a harness contract')
+    return hook(T)
+
+
+EIG_CONTRACT = [None]     # harness-supplied contract for scipy.linalg.eig
+
+
+class _SciLinalgProxy:
+    def __getattr__(self, n):
+        if n == 'eig':
+            return sym_eig
+        real = getattr(_sl, n)
+        if callable(real) and not isinstance(real, type):
+            def f(*a, **k):
+                if core.active() and (has_sym(list(a)) or has_sym(k)):
+                    raise Unsupported('scipy.linalg.%s on symbolic values' % n)
+                return wrap(real(*unwrap(list(a)), **unwrap(k))) if core.active() else real(*a, **k)
+            return f
+        return real
+
+
+class _ScipyProxy:
+    sparse = _SparseProxy()
+    linalg = _SciLinalgProxy()
+
+    def __getattr__(self, n):
+        return getattr(_scipy, n)
+
+
+MODULE_PROXIES['scipy'] = _ScipyProxy()
+MODULE_PROXIES['scipy.sparse'] = _ScipyProxy.sparse
+MODULE_PROXIES['scipy.linalg'] = _ScipyProxy.linalg
+MODULE_PROXIES['scipy.sparse.linalg'] = _SparseProxy.linalg
+FUNCTION_PROXIES['scipy.sparse.csgraph._traversal.connected_components'] = sym_connected_components
